@@ -890,6 +890,9 @@ std::size_t CppCheck::calculateHash(const Preprocessor& preprocessor, const std:
              << ' ' << platform.sizeof_pointer;
     for (const std::string &l : mSettings.libraries)
         toolinfo << ' ' << l;
+    // __has_include depends on the include paths even when no header is loaded from them
+    for (const std::string &i : mSettings.includePaths)
+        toolinfo << " -I" << i;
     mSuppressions.nomsg.dump(toolinfo, filePath);
     return preprocessor.calculateHash(toolinfo.str());
 }
